@@ -8,7 +8,7 @@
 EXTENDS Naturals, Sequences, FiniteSets, TLC, Json, CSV, Str
 
 \* DomainCfgs: configuration variants - cookie domains (none / dotted / two) or, without domains, a backend-logout URL whose endpoint
-\* answers 200 / 500 (backend_ok / backend_fail)
+\* answers 200 / 500 / not at all, the connection being dropped (backend_ok / backend_fail / backend_reset)
 CONSTANTS MaxReqs, Stores, DomainCfgs, DeleteKey   \* DeleteKey = FALSE: named deviation "cookie cleared, key kept" (selftest)
 
 Vocab == [ atoms |-> [ none |-> "" ] ]
